@@ -66,9 +66,9 @@ func (s *socket) SendMsg(e any, msg unixsocket.Msg) error {
 		return fmt.Errorf("send msg: payload too large: %d > %d", s.sendBuff.Len(), bufferSize)
 	}
 
+	verifMsg("send", e) // logged before it leaves, so that an endpoint's log is causally ordered
 	if err := s.Socket.SendMsg(s.sendBuff.Bytes(), msg); err != nil {
 		return fmt.Errorf("send msg: %w", err)
 	}
-	verifMsg("send", e)
 	return nil
 }
